@@ -504,6 +504,14 @@ class SimulatorBackend(LocalBackend):
         cmd = f"python {self.entry_point} {config_str}"
         env = dict(os.environ)
         logger.info(f"running script with command: {cmd}")
+        # ``std.out`` is appended to. If the trial is resumed, it contains all
+        # results reported by its previous runs, whether they have been
+        # received before the trial was paused or not (the script always runs
+        # to the end)
+        if (trial_path / "std.out").exists():
+            num_already_before = len(retrieve(log_lines=self.stdout(trial_id=trial_id)))
+        else:
+            num_already_before = 0
         with open(trial_path / "std.out", "a") as stdout:
             with open(trial_path / "std.err", "a") as stderr:
                 return_status = subprocess.run(
@@ -515,14 +523,12 @@ class SimulatorBackend(LocalBackend):
             status = Status.failed
         # Read all reported results
         # Results are also read if the process failed
-        # Note that ``retrieve`` returns all results, even those already
-        # received before (in case the trial is resumed at least once).
+        # Note that ``retrieve`` returns all results, also those of previous
+        # runs (in case the trial is resumed at least once). Only the results
+        # reported by this run belong to it. In particular, results of the run
+        # which has been paused must not be delivered once the trial is resumed,
+        # even if they did not arrive before the pause
         all_results = retrieve(log_lines=self.stdout(trial_id=trial_id))
-        num_already_before = self._last_metric_seen_index[trial_id]
-        assert num_already_before <= len(all_results), (
-            f"Found {len(all_results)} total results, but have already "
-            + f"processed {num_already_before} before!"
-        )
         results = all_results[num_already_before:]
         return status, results
 
